@@ -30,6 +30,14 @@ TPersist == IsEv("Persist") /\ Persist(E.id, E.n) /\ Consume
 TUnload == /\ IsEv("Unload") /\ Consume /\ UNCHANGED s /\ s.wpc = "idle"
            /\ \/ E.res \in {"saved", "already"} /\ E.id \in s.saved
               \/ E.res = "ioerr" /\ E.id \in s.failed
+\* a process that persisted chunks and ends in an orderly way: its gauges agree with the chunk files in the directory
+\* (C19) - a write that failed left no file and is in no gauge
+RECURSIVE SumLen(_)
+SumLen(S) == IF S = {} THEN 0 ELSE LET i == CHOOSE x \in S : TRUE IN s.file[i] + SumLen(S \ {i})
+TVictimGauges == /\ IsEv("VictimGauges") /\ Consume /\ UNCHANGED s /\ s.phase = "victim" /\ s.wpc = "idle"
+                 /\ LET have == {i \in 1..K : s.file[i] # NOFILE} IN
+                    /\ E.persistentChunks = Cardinality(have)
+                    /\ E.unitsExact /\ E.persistentUnits = SumLen(have)
 TVictimEnd == IsEv("VictimEnd") /\ (E.killed \/ s.wpc = "idle") /\ Crash /\ Consume
 \* the directory the victim left behind: chunk names with lengths, temporary names with lengths
 TFiles == /\ IsEv("Files") /\ Consume /\ UNCHANGED s /\ s.phase = "dead"
@@ -54,7 +62,7 @@ TRecoveryDone == /\ IsEv("RecoveryDone") /\ Consume /\ RecoveryDone
                  /\ E.persistentChunks = E.filesLeft /\ E.pending = 0
 TReset == IsEv("RESET") /\ s.phase = "done" /\ s' = S0 /\ Consume
 
-TNext == TSilent \/ TRespawn \/ TPersist \/ TUnload \/ TVictimEnd \/ TFiles \/ TDamage \/ TFeederLoad \/ TForward \/ TRecoveryDone \/ TReset
+TNext == TSilent \/ TRespawn \/ TPersist \/ TUnload \/ TVictimGauges \/ TVictimEnd \/ TFiles \/ TDamage \/ TFeederLoad \/ TForward \/ TRecoveryDone \/ TReset
 TSpec == TInit /\ [][TNext]_tvars
 
 HWM == IF l > TLCGet(1) THEN TLCSet(1, l) ELSE TRUE
